@@ -963,7 +963,7 @@ def gen_plan(r, seed, tier):
     mode = wchoice(r, [("tiny", 3), ("small", 5), ("medium", 2), ("large", 0.4)])
     gsize = {"tiny": r.randint(1, 4), "small": r.randint(3, 12), "medium": r.randint(10, 40), "large": r.randint(60, 200)}[mode]
     nitems = {"tiny": r.randint(0, 2), "small": r.randint(1, 5), "medium": r.randint(3, 9), "large": r.randint(6, 16)}[mode]
-    dict_mode = wchoice(r, [("none", 3), ("core", 4), ("env", 1.5), ("custom", 1.5)])
+    dict_mode = wchoice(r, [("none", 3), ("core", 4), ("env", 1.5), ("custom", 1.5), ("layered", 1.5)])
     restarts = wchoice(r, [(1, 6), (2, 2.5), (3, 1.5)])
     flavour = "asan" if r.random() < 0.1 else "plain"
     # asan flavour = ASan+UBSan: the harness's canonical printer and Janet's compiler cast doubles to
@@ -1044,7 +1044,10 @@ PRELUDE = r"""
     :none [nil nil]
     :core [make-image-dict load-image-dict]
     :env (let [f (env-lookup root-env)] [(invert f) f])
-    :custom (let [f (merge load-image-dict {'ext/tab ext-tab 'ext/fn ext-fn})] [(invert f) f])))
+    :custom (let [f (merge load-image-dict {'ext/tab ext-tab 'ext/fn ext-fn})] [(invert f) f])
+    # the program's own entries in a table of their own that inherits the core's entries through its prototype
+    :layered (let [own @{'ext/tab ext-tab 'ext/fn ext-fn}]
+               [(table/setproto (invert own) make-image-dict) (table/setproto own load-image-dict)])))
 (defn save [key r]
   (def rev ((dicts) 0))
   (sim/persist key (if rev (marshal r rev) (marshal r))))
@@ -1250,7 +1253,7 @@ def shrink(plan):
         del q["ops"][i]
         yield q
     # dictionary mode
-    if P["dict"] in ("env", "custom"):
+    if P["dict"] in ("env", "custom", "layered"):
         q = clone(P)
         q["dict"] = "core"
         yield q
